@@ -48,7 +48,7 @@ def _case_of(sc: dict, pools: dict, idx: int, rng: random.Random) -> dict:
     ph = pools[n][fl][idx % len(pools[n][fl])]
     return {
         "id": f"s{idx}", "phys": ph, "backend": sc["backend"], "rho": sc["rho"], "optp": sc["optp"], "reorder": sc["reorder"],
-        "spe": sc["spe"], "dark": sc["dark"], "given": sc["given"], "dim": sc["dim"],
+        "spe": sc["spe"], "dark": sc["dark"], "given": sc["given"], "dim": sc["dim"], "tagmode": sc.get("tagmode", "base"),
         "mode": "handset" if sc["spe"] else "run", "shots": 1000, "seed": idx + 1,
     }
 
@@ -62,7 +62,8 @@ def _sample_scenarios(rng: random.Random, n: int, thorough: bool) -> list[dict]:
 
     def sc(backend, rho, optp, reorder, spe, dark, given):
         return {"backend": backend, "n": n, "rho": rho, "optp": optp if reorder else ident, "reorder": reorder, "spe": spe,
-                "dark": dark if spe else [False] * n, "given": given, "dim": 2}
+                "dark": dark if spe else [False] * n, "given": given, "dim": 2,
+                "tagmode": rng.choice(["base", "suffix", "both"]) if reorder and backend == "mps" else "base"}
 
     masks = [[bool((m >> a) & 1) for a in range(n)] for m in range(2**n)]
     masks = [m for m in masks if sum(not x for x in m) >= 2]       # fewer than two good atoms: C25
@@ -88,6 +89,8 @@ def _key_for(x: dict) -> str:
     vr, vf = x["verdict_res"], x["verdict_full"]
     if vr.startswith("raise:"):
         return f"{b}:raises:{vr.split(':')[1]}" + (":reorder" if c["reorder"] else "")
+    if vr.startswith("suffixed-") and b == "mps" and c["reorder"]:
+        return "mps:reorder:suffixed-tag-results-left-in-site-order"
     sd = rec.get("site_drive")
     dark = c["dark"] if c["spe"] else [False] * c["phys"]["n"]
     required = [a for a in Q.site_order(c) if not dark[a]]          # the requirement's site order, not the code's belief
@@ -111,9 +114,9 @@ def _judge(ctx: Ctx, results: list[dict], preds: dict[str, dict] | None, stratum
             stats["min_bits_p"] = min(stats["min_bits_p"], rec.get("bits_pmin", 1.0))
         ident = list(range(n))
         nontrivial = (c["rho"] != ident or (c["reorder"] and c["optp"] != ident) or c["spe"]) and len(c["rho"]) == n
-        ctx.case((stratum, c["phys"]["id"], c["backend"], c["rho"], c["optp"], c["reorder"], c["dark"] if c["spe"] else 0, c["given"]), nontrivial=nontrivial,
+        ctx.case((stratum, c["phys"]["id"], c["backend"], c["rho"], c["optp"], c["reorder"], c["dark"] if c["spe"] else 0, c["given"], c.get("tagmode", "base")), nontrivial=nontrivial,
                  sample={"stratum": stratum, "backend": c["backend"], "register_order": c["rho"], "optimiser_returns": c["optp"], "reorder": c["reorder"],
-                         "dark": c["dark"] if c["spe"] else None, "oracle": x["ref_kind"], "margin": rec.get("margin"), "verdict": x["verdict_res"]} if stats["runs"] % 97 == 1 else None)
+                         "dark": c["dark"] if c["spe"] else None, "tags": c.get("tagmode", "base"), "oracle": x["ref_kind"], "margin": rec.get("margin"), "verdict": x["verdict_res"]} if stats["runs"] % 97 == 1 else None)
         if o.get("forced_calls") is not None and c.get("force", True) and c["reorder"] and c["backend"] == "mps" and o["outcome"] == "ok":
             if o.get("cfg_reorder") and o["forced_calls"] == 0:
                 raise MachineryError(f"the optimiser wrapper was never called in {c['id']} (interposition point moved?)")
@@ -125,7 +128,7 @@ def _judge(ctx: Ctx, results: list[dict], preds: dict[str, dict] | None, stratum
                 _key_for(x),
                 f"{c['backend']} run reports {x['verdict_res']} (site level: {x['verdict_full']}; drive labels at sites {rec.get('site_drive')}, "
                 f"interaction labels at sites {rec.get('site_imat')}; register order {c['rho']}, optimiser output {c['optp']}, reorder={c['reorder']}, "
-                f"dark={c['dark'] if c['spe'] else None}; worst error / budget = {rec.get('margin'):.3g} against the {x['ref_kind']} oracle)",
+                f"dark={c['dark'] if c['spe'] else None}, observable tags={c.get('tagmode', 'base')}; worst error / budget = {rec.get('margin'):.3g} against the {x['ref_kind']} oracle)",
                 {"case": c, "observed": {k: o.get(k) for k in ("outcome", "atom_order", "occupation", "energy", "hooks")}, "projected": {k: rec[k] for k in ("atomOrder", "ham", "occ", "bits", "numeric")},
                  "how": "harness.drivers._qorder.run_case(case) on the real code; compare with run_case of tight_ref_case(case, 'same-site-order') and reference(phys, dark)"},
             )
@@ -171,7 +174,7 @@ def _natural_cases(rng: random.Random, sizes: list[int], per_size: int) -> list[
                 k += 1
                 base = {"phys": ph, "rho": r, "optp": list(range(n)), "spe": False, "dark": [False] * n, "given": fl == "given", "dim": 2,
                         "mode": "run", "shots": 1000, "seed": k, "precision": 1e-7}
-                cases.append({**base, "id": f"nat{k}-on", "backend": "mps", "reorder": True, "force": False})
+                cases.append({**base, "id": f"nat{k}-on", "backend": "mps", "reorder": True, "force": False, "tagmode": "both"})
                 if n <= 12:
                     cases.append({**base, "id": f"nat{k}-sv", "backend": "sv", "reorder": False})
     return cases
@@ -238,7 +241,7 @@ def _run_natural(ctx: Ctx, alpha: float) -> dict:
                 ref, tol, kind = Q.self_ref(c, o, tb), Q.loose_tol(c, nsteps), "self (labels only)"
         rec = Q.project(c, o, ref, alpha, tol=tol, joint=joint)
         results.append({"case": c, "obs": o, "rec": rec, "ref_kind": kind})
-        records.append({"id": len(records) + 1, "sc": Q.scen_of(c), "obs": {k2: rec[k2] for k2 in ("outcome", "atomOrder", "ham", "imat", "occ", "bits", "corr", "numeric")}})
+        records.append({"id": len(records) + 1, "sc": Q.scen_of(c), "obs": {k2: rec[k2] for k2 in Q.OBS_FIELDS}})
         if c["backend"] == "mps" and c["reorder"] and c["optp"] != list(range(n)):
             nontrivial_perms += 1
     verd = Q.tlc_observed(ctx, "natural", records)
@@ -342,28 +345,31 @@ def run(ctx: Ctx) -> None:
 
     # ---------------------------------------------------------------- (1) TLC
     maxn = 4
-    res = run_tlc("MCQubitOrder", None, workdir=ctx.work, name="mc_repaired", workers=workers,
-                  cfg_text=Q.qo_cfg("cV111", maxn, 0, 3, "cBoth", "all", False, False, C03_INVS))
-    ctx.add_tlc(res)
-    if res["violated"]:
-        raise MachineryError(f"the site-order revision of the mechanism violates the requirement in the model: {res['violated']} (spec bug) see {res['outfile']}")
-    ctx.log(f"TLC: site-order mechanism |= C03 requirement for all n <= {maxn} (all dark masks): {res['distinct']} states")
+    # quick: all n <= 4 with base tags + all n <= 3 with every tag mode (the tag dimension is orthogonal to the
+    # size); thorough: all n <= 4 with every tag mode
+    for nm, mx, tg in ([("mc_repaired", 4, "cTagsBase"), ("mc_repaired_tags", 3, "cTagsAll")] if ctx.quick else [("mc_repaired", 4, "cTagsAll")]):
+        res = run_tlc("MCQubitOrder", None, workdir=ctx.work, name=nm, workers=workers,
+                      cfg_text=Q.qo_cfg(Q.REPAIRED, mx, 0, 3, "cBoth", "all", False, False, C03_INVS, tg))
+        ctx.add_tlc(res)
+        if res["violated"]:
+            raise MachineryError(f"the repaired revision of the mechanism violates the requirement in the model: {res['violated']} (spec bug) see {res['outfile']}")
+        ctx.log(f"TLC: repaired mechanism |= C03 requirement for all n <= {mx} (all dark masks, tags {tg}): {res['distinct']} states")
     if not ctx.quick:
         res5 = run_tlc("MCQubitOrder", None, workdir=ctx.work, name="mc_repaired_n5", workers=workers, timeout=3000,
-                       cfg_text=Q.qo_cfg("cV111", 5, 0, 3, "cBoth", "nospe", False, False, C03_INVS))
+                       cfg_text=Q.qo_cfg(Q.REPAIRED, 5, 0, 3, "cBoth", "nospe", False, False, C03_INVS, "cTagsAll"))
         ctx.add_tlc(res5)
         if res5["violated"]:
             raise MachineryError(f"n = 5: the site-order revision violates {res5['violated']} (spec bug) see {res5['outfile']}")
         ctx.log(f"TLC: ... and for n <= 5 without dark atoms (C25 covers them): {res5['distinct']} states")
     cov = run_tlc("MCQubitOrder", None, workdir=ctx.work, name="mc_coverage", workers=4, coverage=True,
-                  cfg_text=Q.qo_cfg(variant, 2, 0, 2, "cBoth", "all", False, False, []))
+                  cfg_text=Q.qo_cfg(variant, 2, 0, 2, "cBoth", "all", False, False, [], "cTagsAll"))
     ctx.add_tlc(cov)
     if cov.get("coverage_zero"):
         ctx.notes.append(f"spec actions never taken: {cov['coverage_zero']}")
     model_violates = []
-    if variant != "cV111":
+    if variant != Q.REPAIRED:
         r2 = run_tlc("MCQubitOrder", None, workdir=ctx.work, name="mc_observed", workers=workers,
-                     cfg_text=Q.qo_cfg(variant, 3, 0, 3, "cBoth", "nospe", False, False, C03_INVS))
+                     cfg_text=Q.qo_cfg(variant, 3, 0, 0, "cBoth", "nospe", False, False, C03_INVS, "cTagsAll"))
         ctx.add_tlc(r2)
         model_violates = [v[1] for v in r2["violated"]]
         ctx.log(f"TLC: the mechanism revision the tree follows ({variant}) violates {model_violates} in the model")
@@ -372,7 +378,7 @@ def run(ctx: Ctx) -> None:
     # ---------------------------------------------------------------- (2) binding A
     alpha = 1e-9 / 4e6
     n_enum = ctx.pick(3, 4)
-    preds = Q.tlc_predictions(ctx, "enum", variant, maxn=n_enum, backends="cBoth", focus="all", dim3=0, pair=0, workers=workers)
+    preds = Q.tlc_predictions(ctx, "enum", variant, maxn=n_enum, backends="cBoth", focus="all", dim3=0, pair=0, workers=workers, tagmodes="cTagsAll")
     scen = [json.loads(k) for k in preds]
     scen = [dict(zip(Q.SCEN_FIELDS, s)) for s in scen]
     scen = [s for s in scen if sum(1 for d in s["dark"] if not d) >= 2 or not s["spe"]]     # < 2 good atoms: C25's subject
